@@ -81,7 +81,7 @@ func runC11(c *Ctx) {
 	cfgs := edfConfigs()
 	pre := edfPreamble()
 	r.Rule = "random Go type (depth <= 6 over primitives, framework identifiers, time, error, any, registered named/struct/marshaler types) then a random value of it, " +
-		"lengths biased to 0/1/255/256/4095/4096/32767/32768/65533..65536, nil vs empty at every level, under 12 option configurations (atom/reg/err caches, mappings, Cache); " +
+		"lengths biased to 0/1/255/256/4095/4096/32767/32768/65533..65536, nil vs empty at every level, under 14 option configurations (atom/reg/err caches, mappings, Cache); " +
 		"per case: model enc = Go bytes, model dec = Go Decode text, Go Decode of model bytes = model rt, and the implementation-only round-trip oracle. " +
 		"non-trivial = nesting depth >= 2, or a boundary length (>= 254) was used, or a cache id was used in the encoding; distinct by (config, type text, value text)"
 
@@ -148,6 +148,9 @@ func runC11(c *Ctx) {
 				budget = 14000
 			}
 			g := newEdfGen(c.Rng, edfMain, budget)
+			if cfg.Boundary {
+				g.prefTypes, g.prefAtoms, g.prefSent = edfBoundaryTypes, edfBoundaryAtoms, edfBoundarySentinels
+			}
 			g.poison = c.Rng.Intn(16) == 0
 			if g.poison {
 				g.budget += 70000
@@ -416,6 +419,27 @@ func c11CacheEvidence(r *Result, k *edfCase) bool {
 					hit = true
 					break
 				}
+			}
+		}
+	}
+	if cfg.Boundary {
+		// hand-assigned ids at the boundaries of the id ranges
+		for _, id := range []uint16{4096, 4097, 65535} {
+			pat := []byte{0x83, byte(id >> 8), byte(id)}
+			if bytes.HasPrefix(G, pat) {
+				r.Count(fmt.Sprintf("cache.boundary-id.reg.%d.top", id))
+			} else if bytes.Contains(G, pat) && cfg.regD[id] != "" && strings.Contains(k.val, edfRegByT[edfBoundaryTypes[map[uint16]int{4096: 0, 4097: 1, 65535: 2}[id]]].Ty) {
+				r.Count(fmt.Sprintf("cache.boundary-id.reg.%d.nested", id))
+			}
+		}
+		for _, a := range k.facts.atoms {
+			if id := cfg.atomE[a]; id == 256 || id == 257 || id == 65535 {
+				r.Count(fmt.Sprintf("cache.boundary-id.atom.%d", id))
+			}
+		}
+		for _, e := range k.facts.sentinels {
+			if id := cfg.errE[e]; id == 32768 || id == 32769 || id == 65534 {
+				r.Count(fmt.Sprintf("cache.boundary-id.err.%d", id))
 			}
 		}
 	}
